@@ -108,6 +108,39 @@ fn stage_a(rep: &mut Report) {
                 }
             }
         }
+        // blocks that code every scan position: 64 events in an inter block, 63 after INTRADC
+        for intra in [false, true] {
+            for variant in 0..4 {
+                let n = if intra { 63 } else { 64 };
+                let esc = if !sorenson || version == 0 { Esc::Esc8 } else if variant % 2 == 0 { Esc::Esc7 } else { Esc::Esc11 };
+                let mut w = BitWriter::new();
+                if intra {
+                    w.put(77, 8);
+                }
+                let mut want = vec![];
+                for i in 0..n {
+                    let level = if i + 1 == n && esc == Esc::Esc11 { -1023 } else { ((i as i32 * 7 + variant) % 11) - 5 };
+                    let level = if level == 0 { 3 } else { level };
+                    let short = variant >= 2 && tcoef_short(i + 1 == n, 0, level.unsigned_abs()).is_some();
+                    encode_event(&mut w, &Ev { run: 0, level, esc: if short { Esc::Short } else { esc } }, i + 1 == n);
+                    want.push((short, 0u8, level as i16));
+                }
+                w.put(0xABCD, 16);
+                let r = catch(|| {
+                    let mut rd = H263Reader::from_source(&w.bytes[..]);
+                    decode_block(&mut rd, sut::options(sorenson, false), &pic, PictureOption::empty(), if intra { MacroblockType::Intra } else { MacroblockType::Inter }, true).map(|b| (b.tcoef.iter().map(|t| (t.is_short, t.run, t.level)).collect::<Vec<_>>(), rd.verif_position().0))
+                });
+                rep.evaluations += 1;
+                match r {
+                    Ok(Ok((got, bits))) if got == want && bits == w.nbits - 16 => {
+                        rep.count("A:full_blocks");
+                        rep.distinct_enumerated += 1;
+                    }
+                    Ok(other) => rep.violation(format!("A/full-block/{}", fl), format!("{} block coding all {} scan positions (intra={}): parser gave {:?}", fl, n, intra, other.map(|(g, b)| (g.len(), b)).map_err(|e| format!("{:?}", e))), tag(format!("{} full block", fl))),
+                    Err(p) => rep.violation(format!("panic@{}", p.loc), format!("block parser panicked: {}", p.msg), tag("panic".into())),
+                }
+            }
+        }
         // INTRADC: all 256 codes
         for code in 0..=255u32 {
             let mut w = BitWriter::new();
@@ -372,6 +405,34 @@ fn stage_c(ctx: &Ctx, q: u8, rep: &mut Report) {
                 continue;
             }
             let refp = dec.planes().unwrap();
+            // variant: the DQUANT is carried by a macroblock without any coefficients and observed through
+            // the next macroblock (32x16 picture)
+            {
+                let cfg2 = PicCfg { w: 32, ..cfg.clone() };
+                let ref2 = {
+                    let c = PicCfg { w: 32, ..PicCfg { flavour, w: 16, h: 16, quant: 8, tr: 0, wide_levels: false, stuffing_pct: 0, pei: 0, deblock_flag: false, prefer_fixed_size_code: false, force16: false } };
+                    let hdr = make_header(&c, 0, &mut rng);
+                    let mk = || SymMb::Coded { kind: MbKind::Intra, dquant: 1, mvd: [[0; 2]; 4], blocks: std::array::from_fn(|_| SymBlock { intradc: Some(127), events: vec![] }) };
+                    SymPicture { hdr, w: 32, h: 16, mbs: vec![mk(), mk()], stuffing: vec![] }
+                };
+                let hdr2 = make_header(&cfg2, 1, &mut rng);
+                let carrier = SymMb::Coded { kind: if rng.chance(1, 2) { MbKind::InterQ } else { MbKind::Inter4VQ }, dquant: d, mvd: [[0; 2]; 4], blocks: std::array::from_fn(|_| SymBlock::default()) };
+                let observer = SymMb::Coded { kind: MbKind::Inter, dquant: 1, mvd: [[0; 2]; 4], blocks: std::array::from_fn(|_| SymBlock { intradc: None, events: vec![Ev { run: 0, level: 5, esc: Esc::Esc8 }] }) };
+                let pic2 = SymPicture { hdr: hdr2, w: 32, h: 16, mbs: vec![carrier, observer], stuffing: vec![] };
+                let mut dec2 = Dec::new(flavour.sorenson(), false);
+                rep.evaluations += 1;
+                if dec2.decode(&ref2.encode()) == Outcome::Ok {
+                    let refp2 = dec2.planes().unwrap();
+                    let b2 = pic2.encode();
+                    match check_inter(&mut dec2, &refp2, &pic2, &b2) {
+                        Ok(_) => {
+                            rep.count("C:dquant_on_empty_macroblock");
+                            rep.distinct.insert(fnv64(&b2));
+                        }
+                        Err(f) => rep.violation(format!("C/dquant-empty-carrier/{}", f.sig), format!("PQUANT {} DQUANT {} carried by a macroblock without coefficients ({}): {}", q, d, flavour.name(), f.detail), tag(format!("dquant-empty {}", d))),
+                    }
+                }
+            }
             match check_inter(&mut dec, &refp, &pic, &bytes) {
                 Ok(_) => {
                     rep.count("C:dquant_updates");
@@ -411,9 +472,11 @@ pub fn run(ctx: &Ctx) -> (Report, String) {
         rep.require("B:saturated", 10000);
         rep.require("B:multi_coefficient_blocks_exact", 31 * 15_000);
         rep.require("A:intradc_ok", 254 * 3);
+        rep.require("A:full_blocks", 24);
         rep.require("A:intradc_rejected", 2 * 3);
         rep.require("C:dquant_updates", 31 * 4 * 2);
         rep.require("C:dquant_clamped", 8);
+        rep.require("C:dquant_on_empty_macroblock", 31 * 4 * 2);
         rep.require("C:inter:Esc11", 1000);
         rep.require("C:intra:Esc11", 1000);
         rep.exhaustive = Some(rep.violations.is_empty());
